@@ -40,6 +40,11 @@ type Prog struct {
 	fieldOwnerMemo map[*types.Var]*types.Named
 	retRootsMemo   map[*ssa.Function][]root
 	retRootsBusy   map[*ssa.Function]bool
+	relevantMemo   map[*ssa.Function]bool
+	nodePathsMemo  map[*ssa.Function]*pathResult
+	catchMemo      *catchAnalysis
+	unitsMemo      map[*ssa.Function][]*nodeUnit
+	wrappersMemo   []wrapperInfo
 }
 
 func shortName(s string) string {
